@@ -58,22 +58,21 @@ abbrev MkTable := List ((Kind × List Char) × Option (List UInt8))
 def parseMkTable (s : String) : Option MkTable :=
   if s == "-" then some [] else (s.splitOn ",").mapM parseMkEntry
 
-/-- one entry `bytehex>hasUnprintable01:texthex:lossyhex` of the escaper table
-    (`escaped_printable`, `has_unprintable`, `String::from_utf8_lossy`) -/
-def parseEscEntry (s : String) : Option (List UInt8 × Bool × List Char × List Char) :=
+/-- one entry `bytehex>hasUnprintable01:texthex` of the escaper table
+    (`has_unprintable`, `escaped_printable`) -/
+def parseEscEntry (s : String) : Option (List UInt8 × Bool × List Char) :=
   match s.splitOn ">" with
   | [b, rhs] =>
     match rhs.splitOn ":" with
-    | [u, t, l] => do
+    | [u, t] => do
       let b ← unhex b
       let u ← bool01 u
       let t ← unhexText t
-      let l ← unhexText l
-      pure (b, u, t, l)
+      pure (b, u, t)
     | _ => none
   | _ => none
 
-abbrev EscTable := List (List UInt8 × Bool × List Char × List Char)
+abbrev EscTable := List (List UInt8 × Bool × List Char)
 
 def parseEscTable (s : String) : Option EscTable :=
   if s == "-" then some [] else (s.splitOn ",").mapM parseEscEntry
@@ -92,10 +91,9 @@ def mkMissing (tbl : MkTable) (l : List Char) : Bool :=
 def paramsOf (mk : MkTable) (esc : EscTable) : Params :=
   { isWhite := unicodeWhite,
     make := fun k e => (mk.lookup (k, e)).join,
-    escPrintable := fun b => match esc.lookup b with | some (_, t, _) => t | none => [],
-    hasUnprintable := fun b => match esc.lookup b with | some (u, _, _) => u | none => false,
-    isSpaceStd := unicodeWhite,
-    lossy := fun b => match esc.lookup b with | some (_, _, l) => l | none => [] }
+    escPrintable := fun b => match esc.lookup b with | some (_, t) => t | none => [],
+    hasUnprintable := fun b => match esc.lookup b with | some (u, _) => u | none => false,
+    isSpaceStd := unicodeWhite }
 
 def showErr : Err → String
   | .crash => "crash" | .noMaker => "err no-maker" | .makeError => "err make"
